@@ -7,6 +7,7 @@ import (
 	"fmt"
 	"go/constant"
 	"go/token"
+	"go/types"
 	"sort"
 	"strings"
 
@@ -23,26 +24,44 @@ func singleReturnTerm(f *ssa.Function, k int) (*Term, *TermBuilder, bool) {
 	return tb.T(rets[0].Results[k]), tb, true
 }
 
-// checkReturnIs: f's single return value k has exactly the given term.
+// checkReturnIs: every return of f yields, as result k, exactly the given term. A differing term built
+// only from known vocabulary is a violation; an unrecognised shape is undecided.
 func checkReturnIs(c *Ctx, rule, construct string, f *ssa.Function, k int, want, okWhy string) {
 	if f == nil {
 		c.missing(rule, construct, construct)
 		return
 	}
 	c.useFn(f)
-	got := "<several returns>"
-	rets := returnsOf(f)
-	ok := len(rets) == 1 && len(rets[0].Results) > k
-	if ok {
-		tb := newTB(f)
-		tb.NoInline = true // wrappers are judged by the function they call, not by its body
-		got = tb.T(rets[0].Results[k]).String()
+	tb := newTB(f)
+	tb.NoInline = true // wrappers are judged by the function they call, not by its body
+	alts := resultAlts(tb, f, k)
+	if len(alts) == 0 {
+		c.undecided(rule, construct, f.Pos(), "no return with that many results")
+		return
 	}
-	c.check(ok && got == want, rule, construct, f.Pos(), okWhy, "returns "+short(got)+", want "+want)
+	allEq := true
+	var diff *Term
+	for _, a := range alts {
+		if a.T.String() != want {
+			allEq = false
+			diff = a.T
+		}
+	}
+	if allEq {
+		c.ok(rule, construct, f.Pos(), okWhy)
+		return
+	}
+	if len(alts) > 1 {
+		// error-propagating variants (an extra early return) are a different shape, not a different wrapper
+		c.undecided(rule, construct, f.Pos(), fmt.Sprintf("%d return sites; one yields %s; want %s", len(alts), short(diff.String()), short(want)))
+		return
+	}
+	c.cmpTerm(rule, construct, f.Pos(), diff, want, okWhy, "wrapper does not return the expected call")
 }
 
 // checkFileWrite: a Write(x, path) wrapper must put exactly data(x) into a truncated/created file.
-// Accepted: ioutil.WriteFile/os.WriteFile(path, DATA, perm); DATA must be the term wantData.
+// Positive evidence of a violation: the file is opened with os.OpenFile without O_TRUNC (a shorter
+// output leaves the stale tail of a longer previous file), or WriteFile is given other data.
 func checkFileWrite(c *Ctx, rule, construct string, f *ssa.Function, pathParam int, wantData string) {
 	if f == nil {
 		c.missing(rule, construct, construct)
@@ -50,28 +69,63 @@ func checkFileWrite(c *Ctx, rule, construct string, f *ssa.Function, pathParam i
 	}
 	c.useFn(f)
 	tb := newTB(f)
+	tb.NoInline = true
 	var wf []ssa.CallInstruction
+	var opens []ssa.CallInstruction
 	var others []string
-	eachInstr(f, func(i ssa.Instruction) {
-		if ci, ok := i.(ssa.CallInstruction); ok {
-			n := calleeName(ci)
-			switch n {
-			case "io/ioutil.WriteFile", "os.WriteFile":
-				wf = append(wf, ci)
-			default:
-				if strings.HasPrefix(n, "os.") || strings.HasPrefix(n, "(*os.File).") || strings.HasPrefix(n, "io.") || strings.HasPrefix(n, "bufio.") {
+	for _, g := range funcsSorted(reachable(f)) {
+		if !inModule(g) || g.Blocks == nil {
+			continue
+		}
+		// only follow helpers local to the wrapper's package that are not the data producer
+		if g != f && (g.Pkg != f.Pkg || strings.Contains(wantData, "call["+fname(g)+"]")) {
+			continue
+		}
+		eachInstr(g, func(i ssa.Instruction) {
+			if ci, ok := i.(ssa.CallInstruction); ok {
+				n := calleeName(ci)
+				switch {
+				case n == "os.WriteFile":
+					if g == f {
+						wf = append(wf, ci)
+					} else {
+						others = append(others, n+" in helper "+fname(g))
+					}
+				case n == "os.OpenFile":
+					opens = append(opens, ci)
+				case n == "os.Create":
 					others = append(others, n)
 				}
 			}
+		})
+	}
+	for _, o := range opens {
+		fl, isC := o.Common().Args[1].(*ssa.Const)
+		if isC && fl.Value != nil {
+			v, _ := constant.Int64Val(fl.Value)
+			trunc := int64(0x200)
+			if op := c.W.Prog.ImportedPackage("os"); op != nil {
+				if nc, ok := op.Members["O_TRUNC"].(*ssa.NamedConst); ok && nc.Value != nil && nc.Value.Value != nil {
+					trunc, _ = constant.Int64Val(nc.Value.Value)
+				}
+			}
+			if v&trunc == 0 {
+				c.bad(rule, construct, o.Pos(), fmt.Sprintf("the output file is opened with os.OpenFile flags %#x without O_TRUNC: writing a shorter record over an existing longer file leaves its stale tail, which is read back as extra data", v))
+				return
+			}
 		}
-	})
-	if len(wf) != 1 || len(others) > 0 {
-		c.bad(rule, construct, f.Pos(), fmt.Sprintf("expected exactly one ioutil.WriteFile/os.WriteFile (which creates or truncates); found %d, plus other file calls %v – a file opened without truncation keeps the stale tail of a longer previous file", len(wf), others))
+	}
+	if len(wf) == 1 && len(opens) == 0 && len(others) == 0 {
+		a := wf[0].Common().Args
+		p, d := tb.T(a[0]), tb.T(a[1])
+		if !p.isParam(pathParam) {
+			c.bad(rule, construct, wf[0].Pos(), "the file written is not the path parameter: "+short(p.String()))
+			return
+		}
+		c.cmpTerm(rule, construct, wf[0].Pos(), d, wantData, "WriteFile(path, "+wantData+", perm): whole output, file truncated", "data written to the file")
 		return
 	}
-	a := wf[0].Common().Args
-	p, d := tb.T(a[0]), tb.T(a[1]).String()
-	c.check(p.isParam(pathParam) && d == wantData, rule, construct, wf[0].Pos(), "WriteFile(path, "+wantData+", perm): whole output, file truncated", "writes "+short(d)+" to "+short(p.String())+", want "+wantData+" to the path parameter")
+	c.undecided(rule, construct, f.Pos(), fmt.Sprintf("output is not a single os.WriteFile of the expected data (WriteFile calls=%d, OpenFile calls=%d with O_TRUNC, other=%v)", len(wf), len(opens), others))
 }
 
 // lenLowerBound computes a lower bound for len(X) (X identified by term string) at block b from
@@ -199,7 +253,22 @@ func checkPrefix(c *Ctx, rule string, f *ssa.Function) int {
 		n++
 		xs := tb.T(x).String()
 		lb := lenLowerBound(tb, i.Block(), xs)
-		c.check(lb >= need, rule, fmt.Sprintf("%s:needs len>=%d", fname(f), need), pos,
+		state := holds
+		if lb < need {
+			state = broken
+			// a dominating condition that mentions the string in a way this rule cannot read may be the guard
+			pc := pathCond(tb, f.Blocks[0], i.Block())
+			for _, a := range pc.atoms() {
+				as := a.Atom.String()
+				if !strings.Contains(as, xs) {
+					continue
+				}
+				if !(strings.HasPrefix(as, "binop[") && (strings.Contains(as, "call[builtin:len]("+xs+")") || strings.Contains(as, `const[""]`) || strings.Contains(as, "slice("+xs))) {
+					state = unknown
+				}
+			}
+		}
+		c.judge(state, rule, fmt.Sprintf("%s:needs len>=%d", fname(f), need), pos,
 			fmt.Sprintf("guarded: dominating conditions give len >= %d", lb),
 			fmt.Sprintf("string is sliced/indexed up to %d but dominating conditions only give len >= %d: a shorter line (e.g. a one-letter last sequence line) panics", need, lb))
 	})
@@ -254,8 +323,11 @@ func checkScanCap(c *Ctx, rule string, fs []*ssa.Function) int {
 	return n
 }
 
-// checkNoShared (NOSHARED): functions in fs reference no package-level variable of the module,
-// except those listed in allow (name -> reason). Shared mutable state breaks schedule independence.
+// checkNoShared (NOSHARED): functions in fs use no package-level *mutable* state of the module.
+// A package-level value that is only ever read (tables, compiled regexps, replacers, error values)
+// is not shared state. Mutable = written outside init somewhere in the module, or of a type whose
+// methods mutate it (sync.*, buffers), or handed to a call that may write through it (slices, maps,
+// pointers passed as arguments other than to known read-only functions).
 func checkNoShared(c *Ctx, rule, construct string, fs []*ssa.Function, allow map[string]string) {
 	var hits []string
 	for _, f := range fs {
@@ -268,19 +340,118 @@ func checkNoShared(c *Ctx, rule, construct string, fs []*ssa.Function, allow map
 				if op == nil || *op == nil {
 					continue
 				}
-				if g, ok := (*op).(*ssa.Global); ok && g.Pkg != nil && strings.HasPrefix(g.Pkg.Pkg.Path(), modPath) {
-					if _, ok := allow[gname(g)]; ok {
-						continue
-					}
-					hits = append(hits, fname(f)+" uses "+gname(g)+" at "+c.W.pos(i.Pos()))
+				g, ok := (*op).(*ssa.Global)
+				if !ok || g.Pkg == nil || !strings.HasPrefix(g.Pkg.Pkg.Path(), modPath) {
+					continue
+				}
+				if _, ok := allow[gname(g)]; ok {
+					continue
+				}
+				if why := mutableUse(c, g, i); why != "" {
+					hits = append(hits, fname(f)+" uses "+gname(g)+" at "+c.W.pos(i.Pos())+" ("+why+")")
 				}
 			}
 		})
 	}
 	sort.Strings(hits)
+	hits = dedupe(hits)
 	pos := token.NoPos
 	if len(fs) > 0 {
 		pos = fs[0].Pos()
 	}
-	c.check(len(hits) == 0, rule, construct, pos, fmt.Sprintf("%d functions reference no package-level variable", len(fs)), "package-level state shared between concurrent/independent calls: "+strings.Join(hits, "; "))
+	c.check(len(hits) == 0, rule, construct, pos, fmt.Sprintf("%d functions use no package-level mutable state", len(fs)), "package-level mutable state shared between concurrent/independent calls: "+strings.Join(hits, "; "))
+}
+
+func readOnlyType(t types.Type) bool {
+	s := tname(t)
+	switch s {
+	case "*regexp.Regexp", "*strings.Replacer", "error", "string":
+		return true
+	}
+	if b, ok := t.Underlying().(*types.Basic); ok && b.Kind() != types.UnsafePointer {
+		return true
+	}
+	return false
+}
+
+// mutableUse explains why the use of global g by instruction i touches mutable shared state ("" if it does not).
+func mutableUse(c *Ctx, g *ssa.Global, i ssa.Instruction) string {
+	elem := deref(g.Type())
+	ts := tname(elem)
+	if strings.HasPrefix(ts, "sync.") || strings.HasPrefix(ts, "*sync.") || strings.Contains(ts, "bytes.Buffer") || strings.Contains(ts, "strings.Builder") || strings.HasPrefix(ts, "chan ") {
+		return "a " + ts + " is mutable shared state"
+	}
+	rel := strings.TrimPrefix(strings.TrimPrefix(g.Pkg.Pkg.Path(), modPath), "/")
+	if ws := globalWriters(c, rel, g.Name()); len(ws) > 0 {
+		return "written at run time by " + strings.Join(ws, ", ")
+	}
+	if readOnlyType(elem) {
+		return ""
+	}
+	// a load of the global: follow the loaded value's uses in this function
+	switch x := i.(type) {
+	case *ssa.Store:
+		if x.Addr == ssa.Value(g) {
+			return "assigned"
+		}
+	case *ssa.UnOp:
+		return escapingUse(x, 0)
+	}
+	return ""
+}
+
+// escapingUse: the value v (loaded from a read-only-by-assignment global) is only indexed, ranged,
+// measured, compared or sliced; passing it (or a slice of it) to a call that may write through it is a mutable use.
+func escapingUse(v ssa.Value, depth int) string {
+	if depth > 6 || v.Referrers() == nil {
+		return ""
+	}
+	for _, r := range *v.Referrers() {
+		switch x := r.(type) {
+		case *ssa.Index, *ssa.Lookup, *ssa.Range, *ssa.DebugRef, *ssa.BinOp, *ssa.Field, *ssa.If, *ssa.Return:
+		case *ssa.IndexAddr:
+			for _, rr := range *x.Referrers() {
+				if st, ok := rr.(*ssa.Store); ok && st.Addr == ssa.Value(x) {
+					return "an element is stored into"
+				}
+			}
+		case *ssa.FieldAddr:
+			for _, rr := range *x.Referrers() {
+				if st, ok := rr.(*ssa.Store); ok && st.Addr == ssa.Value(x) {
+					return "a field is stored into"
+				}
+			}
+		case *ssa.Slice, *ssa.Phi, *ssa.MakeInterface, *ssa.ChangeType, *ssa.Extract, *ssa.Next:
+			if w := escapingUse(x.(ssa.Value), depth+1); w != "" {
+				return w
+			}
+		case *ssa.MapUpdate:
+			if x.Map == v {
+				return "the map is updated"
+			}
+		case *ssa.Store:
+			if x.Val == v {
+				// copied into a local: fine for value semantics of the header, the backing store is still shared but only read unless written later
+				continue
+			}
+		case ssa.CallInstruction:
+			n := calleeName(x)
+			if n == "builtin:len" || n == "builtin:cap" || n == "builtin:copy" && x.Common().Args[0] != v || stdPure(n) && !strings.Contains(n, "Buffer") {
+				continue
+			}
+			if n == "builtin:append" && x.Common().Args[0] == v {
+				return "appended to (may write into the shared backing array)"
+			}
+			if strings.HasPrefix(n, "(*bufio.Scanner).Buffer") || strings.HasPrefix(n, "(*sync.") {
+				return "handed to " + n + ", which writes into it"
+			}
+			if g := x.Common().StaticCallee(); g != nil && inModule(g) {
+				return "passed to " + n
+			}
+			if _, isSlice := v.Type().Underlying().(*types.Slice); isSlice {
+				return "passed to " + n + " as a slice"
+			}
+		}
+	}
+	return ""
 }
